@@ -137,9 +137,17 @@ def exec_ops(ops):
     return out
 
 
-def run_case(case, timeout=120):
+class CaseTimeout(Exception):
+    """the forked child ran out of time: an infrastructure problem, never a verdict"""
+
+
+def run_case(case, timeout=None):
     if not case.get("fork"):
         return exec_ops(case["ops"])
+    if timeout is None:
+        # generous and proportional to the case: a loaded machine must not
+        # turn a long case into a failure
+        timeout = 300 + len(case["ops"]) // 10
     r, w = os.pipe()
     pid = os.fork()
     if pid == 0:  # child: fresh copy of the post-import state
@@ -158,6 +166,8 @@ def run_case(case, timeout=120):
         data = f.read()
     _, status = os.waitpid(pid, 0)
     if not data:
+        if (status & 0x7f) == signal.SIGALRM:
+            raise CaseTimeout("case with %d operations exceeded %d s" % (len(case["ops"]), timeout))
         return ["crash signal %d" % (status & 0x7f)] * len(case["ops"])
     out = json.loads(data)
     if len(out) != len(case["ops"]):
